@@ -139,6 +139,44 @@ def _groups5(b):
     return out
 
 
+_CONF = None
+
+
+def confusables():
+    """non-ASCII characters that some str method maps onto ONE ASCII character: lower(), upper(), casefold(), NFKC/NFKD, or a decimal digit value
+    (int() / isdecimal()): ASCII char -> {kind: [characters]} — computed from unicodedata, nothing is hard-coded"""
+    global _CONF
+    if _CONF is None:
+        import unicodedata
+        _CONF = {}
+        for u in list(range(0x80, 0x3000)) + list(range(0xff00, 0xfff0)) + list(range(0x1d400, 0x1d800)):
+            ch = chr(u)
+            for kind, f in (("lower", str.lower), ("upper", str.upper), ("casefold", str.casefold),
+                            ("nfkc", lambda c: unicodedata.normalize("NFKC", c)), ("nfkd", lambda c: unicodedata.normalize("NFKD", c))):
+                t = f(ch)
+                if len(t) == 1 and ord(t) < 128 and t != ch:
+                    _CONF.setdefault(t, {}).setdefault(kind, []).append(ch)
+            if ch.isdecimal():
+                _CONF.setdefault(str(unicodedata.decimal(ch)), {}).setdefault("decimal", []).append(ch)
+    return _CONF
+
+
+def confusable_spellings(rng, addr, per_kind=1):
+    """`addr` (and its all-upper / all-lower spelling) with one character replaced by a non-ASCII look-alike that a case-folding or normalising
+    str method would map back onto it — e.g. the Kelvin sign for K inside an upper-case Bech32 string.  None of them is in any format's alphabet."""
+    conf = confusables()
+    seen = set()
+    for base in (addr, addr.upper(), addr.lower()):
+        for i, c in enumerate(base):
+            for t in {c, c.lower(), c.upper()}:
+                for kind, lst in conf.get(t, {}).items():
+                    if (t, kind, base is addr) in seen:
+                        continue
+                    seen.add((t, kind, base is addr))
+                    for u in rng.sample(lst, min(per_kind, len(lst))):
+                        yield base[:i] + u + base[i + 1:], "confusable-" + kind
+
+
 def byron_cases(rng, tier):
     """Cardano Byron addresses (Icarus and legacy): valid ones, the neighbourhood mutation stream, and CBOR-level re-spellings of the checksum
     field — CRC + k·2^32 as a 64-bit unsigned, CRC − 2^32 as a negative integer (same text length as the valid address), the CRC in a
@@ -167,6 +205,25 @@ def byron_cases(rng, tier):
                     for cls_, item in variants:
                         yield Case("byrondec", [tx(Base58Encoder.Encode(body + item))], cls_)
                     break
+            # bytes AFTER a complete CBOR item (outer array, the tagged payload, the attribute byte strings): every item must span its whole
+            # string, so each of these is refused although CRC, shapes and lengths are all intact (payload surgery recomputes the CRC)
+            for tail in (b"\x00", b"\x00\x01", b"\xff", raw[-1:]):
+                yield Case("byrondec", [tx(Base58Encoder.Encode(raw + tail))], "neg-trailing-outer")
+            try:
+                import cbor2
+                outer = cbor2.loads(raw)
+                payload = outer[0].value
+                for tail in (b"\x00", b"\x18\x2a"):
+                    p2 = payload + tail
+                    yield Case("byrondec", [tx(Base58Encoder.Encode(cbor2.dumps([cbor2.CBORTag(24, p2), zlib.crc32(p2)])))], "neg-trailing-payload")
+                root, attrs, typ = cbor2.loads(payload)
+                for k in list(attrs):
+                    a2 = dict(attrs)
+                    a2[k] = attrs[k] + b"\x00"
+                    p2 = cbor2.dumps([root, a2, typ])
+                    yield Case("byrondec", [tx(Base58Encoder.Encode(cbor2.dumps([cbor2.CBORTag(24, p2), zlib.crc32(p2)])))], "neg-trailing-attr")
+            except ImportError:
+                pass
 
 
 def caseless_strings(rng, tier):
@@ -260,6 +317,9 @@ def gen(rng, tier):
             ex = (tier == "thorough" and i == 0) or (tier == "quick" and first and fmt == "p2wpkh")
             for m, kind in mutations(rng, addr, alphabet, n_mut, exhaustive_single=ex):
                 yield Case("addrdec", [fmt, tx(m)] + kwfields(dkw), "neg-" + kind)
+            if i == 0 or tier == "thorough":
+                for m, kind in confusable_spellings(rng, addr):
+                    yield Case("addrdec", [fmt, tx(m)] + kwfields(dkw), "neg-" + kind)
             # wrong parameters
             other = dict(params[(i * 7 + 1) % len(params)])
             okw = {k: v for k, v in other.items() if k not in ("compressed", "trim_zeroes", "pub_vkey")}
@@ -280,6 +340,9 @@ def gen(rng, tier):
         yield Case("bech32dec", [tx("test"), tx(s)], "valid-bech32")
         for m, kind in mutations(rng, s, B32C, n_mut):
             yield Case("bech32dec", [tx("test"), tx(m)], "neg-" + kind)
+        if i < 2:
+            for m, kind in confusable_spellings(rng, s):
+                yield Case("bech32dec", [tx("test"), tx(m)], "neg-" + kind)
         prog = bytes(rng.randrange(256) for _ in range(rng.choice([2, 20, 32, 40])))
         v = rng.choice([0, 1, 2, 16])
         if v == 0 and len(prog) not in (20, 32):
@@ -288,10 +351,16 @@ def gen(rng, tier):
         yield Case("segwitdec", [tx("bc"), tx(s)], "valid-segwit")
         for m, kind in mutations(rng, s, B32C, n_mut):
             yield Case("segwitdec", [tx("bc"), tx(m)], "neg-" + kind)
+        if i < 2:
+            for m, kind in confusable_spellings(rng, s):
+                yield Case("segwitdec", [tx("bc"), tx(m)], "neg-" + kind)
         s = BchBech32Encoder.Encode("bitcoincash", b"\x00", prog)
         yield Case("bchdec", [tx("bitcoincash"), tx(s)], "valid-bch")
         for m, kind in mutations(rng, s, B32C, n_mut):
             yield Case("bchdec", [tx("bitcoincash"), tx(m)], "neg-" + kind)
+        if i < 2:
+            for m, kind in confusable_spellings(rng, s):
+                yield Case("bchdec", [tx("bitcoincash"), tx(m)], "neg-" + kind)
         d32 = bytes(rng.randrange(256) for _ in range(32))
         f = rng.choice([0, 2, 42, 63, 64, 127, 255, 256, 5000, 16383])
         s = SS58Encoder.Encode(d32, f)
